@@ -96,21 +96,54 @@ example : (∀ c ∈ [84, 10, 9, 126], PlainAscii c) ∧ (∀ c ∈ [233, 128512
 attachment that can be read yields exactly one file specification, in order, with its name (given
 name, else the basename of its URL, else `attachment.bin`), its description unchanged (`""` when
 absent) and the number of bytes read; an attachment that cannot be fetched is skipped, the others are
-unaffected; the `/EmbeddedFiles` dictionary lists them all in that order and exists iff there is one. -/
-theorem attachments_written (g : List (String × String)) (next : Nat) (atts : List Att) :
-    let r := embeddedFiles g next atts
+unaffected; the `/EmbeddedFiles` dictionary exists iff there is one and lists them all — every file
+once (a permutation of the written specifications). -/
+theorem attachments_written (cpsOf : String → List Nat) (g : List (String × String)) (next : Nat) (atts : List Att) :
+    let r := embeddedFiles cpsOf g next atts
     (r.1.map fun f => (f.filename, f.desc, f.size)) = atts.filterMap attSummary ∧
     (r.1.map fun f => f.spec) = (List.range (atts.filterMap attSummary).length).map (fun i => next + 2 * i + 1) ∧
     r.2.1 = (if (atts.filterMap attSummary).isEmpty then none
-      else some ⟨next + 2 * (atts.filterMap attSummary).length, r.1.map fun f => (f.filename, f.spec)⟩) := by
+      else some ⟨next + 2 * (atts.filterMap attSummary).length,
+        (sortSpecs cpsOf r.1).map fun f => (f.filename, f.spec)⟩) ∧
+    (sortSpecs cpsOf r.1).Perm r.1 := by
   obtain ⟨h1, h2, h3⟩ := writeAll_summary g atts next
   simp only [embeddedFiles]
   have hemp : (writeAll g next atts).1.isEmpty = (atts.filterMap attSummary).isEmpty := by
     rw [← h1]; simp
   by_cases he : (atts.filterMap attSummary).isEmpty = true
-  · rw [hemp, he]; simp only [if_true]; exact ⟨h1, h3, trivial⟩
+  · rw [hemp, he]; simp only [if_true]; exact ⟨h1, h3, trivial, sortSpecs_perm _ _⟩
   · have he' : (atts.filterMap attSummary).isEmpty = false := by simpa using he
-    rw [hemp, he']; simp only [Bool.false_eq_true, if_false, h2]; exact ⟨h1, h3, trivial⟩
+    rw [hemp, he']; simp only [Bool.false_eq_true, if_false, h2]; exact ⟨h1, h3, trivial, sortSpecs_perm _ _⟩
+
+/-- The `/EmbeddedFiles` name array (repair 186e86a) is non-decreasing in the sort key of the code, the
+**written form** `pydyf.String(F).data` of the keys, for every list of attachments. -/
+theorem embedded_files_data_sorted (cpsOf : String → List Nat) (files : List FileSpec) :
+    (sortSpecs cpsOf files).Perm files ∧ SortedBy (dataKey cpsOf) (sortSpecs cpsOf files) :=
+  ⟨sortSpecs_perm cpsOf files, sortSpecs_sorted cpsOf files⟩
+
+/-- … and in the order that counts — the bytes of the keys as a reader compares them (ISO 32000-1
+7.9.6) — provided no key holds a parenthesis, a backslash or a byte below `*` (space, `!`, `#`, `&`, …):
+then the written form orders like the bytes.  Without the hypothesis the statement is false of the
+code: `Witness.C18.embedded_files_written_form_order`. -/
+theorem embedded_files_key_sorted_partial (cpsOf : String → List Nat) (files : List FileSpec)
+    (hplain : ∀ f ∈ files, ∀ b ∈ rawKey cpsOf f, PlainByte b) :
+    SortedBy (rawKey cpsOf) (sortSpecs cpsOf files) := by
+  apply SortedBy_congr (dataKey cpsOf) (rawKey cpsOf) _ _ (sortSpecs_sorted cpsOf files)
+  intro x hx y hy
+  have hx' := (sortSpecs_perm cpsOf files).mem_iff.mp hx
+  have hy' := (sortSpecs_perm cpsOf files).mem_iff.mp hy
+  exact fData_lt_plain _ _ (hplain x hx') (hplain y hy')
+
+/-- `b.txt` then `a.txt` (the input of the repaired finding `embedded-files-not-sorted`): the hypothesis
+holds and the array is `a.txt`, `b.txt`. -/
+example : (∀ f ∈ [(⟨10, 11, "b.txt", "", 1, ""⟩ : FileSpec), ⟨12, 13, "a.txt", "", 1, ""⟩],
+      ∀ b ∈ rawKey (fun s => s.toList.map Char.toNat) f, PlainByte b) ∧
+    (sortSpecs (fun s => s.toList.map Char.toNat) [⟨10, 11, "b.txt", "", 1, ""⟩, ⟨12, 13, "a.txt", "", 1, ""⟩]).map
+      (·.filename) = ["a.txt", "b.txt"] := by
+  refine ⟨?_, by decide⟩
+  intro f hf b hb
+  simp only [List.mem_cons, List.not_mem_nil, or_false] at hf
+  rcases hf with rfl | rfl <;> (revert b; simp only [rawKey, fKey]; decide)
 
 /-- `<link rel=attachment>`: the title becomes the description; an element without `href` gives none. -/
 theorem meta_attachments (fetch : String → Att) (els : List LinkEl) :
@@ -158,7 +191,7 @@ theorem link_attachment_annotations (g : List (String × String)) (fetch : Strin
 example : CacheOk (fun _ => ⟨some 3, none, none, none⟩) [] ∧ FilesOk ⟨[], [], 7⟩ :=
   ⟨by intro u v h; simp [Cache.get?] at h, by simp [FilesOk]⟩
 
-example : (embeddedFiles [("a.txt", "text/plain")] 10
+example : (embeddedFiles (fun s => s.toList.map Char.toNat) [("a.txt", "text/plain")] 10
     [⟨some 5, some "a.txt", none, some "d"⟩, ⟨none, none, some "x", none⟩, ⟨some 0, none, none, none⟩]).2.1 =
     some ⟨14, [("a.txt", 11), ("attachment.bin", 13)]⟩ := by decide
 
